@@ -194,6 +194,13 @@ fn ansi_strings_iterator(s: &str) -> impl Iterator<Item = (&str, bool)> {
     })
 }
 
+#[cfg(dandavison_delta_verif)]
+pub fn verif_ansi_strings(s: &str) -> Vec<(String, bool)> {
+    ansi_strings_iterator(s)
+        .map(|(t, is_ansi)| (t.to_string(), is_ansi))
+        .collect()
+}
+
 fn strip_ansi_codes_from_strings_iterator<'a>(
     strings: impl Iterator<Item = (&'a str, bool)>,
 ) -> String {
